@@ -130,23 +130,33 @@ func TestVerifC14Enumerate(t *testing.T) {
 			return
 		}
 		ran++
-		st.Eval()
-		d := kit.NewFaultDB("c14e")
-		conn, cleanup := newConn(d, 0)
-		defer cleanup()
-		o := kit.Run(conn, nestSqlx, d, p)
-		viol, obs := kit.Check(d, p, o)
-		if len(viol) > 0 {
-			failures++
-			t.Errorf("C14 violated (enumerated plan #%d):\n  - %s\n%s", idx, strings.Join(viol, "\n  - "), kit.Render(p, o))
-			return
+		paths := []int{0}
+		if p.Begin == kit.BeginConnectFail {
+			// "no connection" also has a second shape: the conn provider of a DSN-built conn fails
+			paths = []int{0, 2}
 		}
-		classify(st, p, o, obs)
+		for _, path := range paths {
+			st.Eval()
+			d := kit.NewFaultDB("c14e")
+			conn, cleanup := newConn(d, path)
+			o := kit.Run(conn, nestSqlx, d, p)
+			cleanup()
+			viol, obs := kit.Check(d, p, o)
+			if len(viol) > 0 {
+				failures++
+				t.Errorf("C14 violated (enumerated plan #%d on %s conn):\n  - %s\n%s", idx, connPaths[path],
+					strings.Join(viol, "\n  - "), kit.Render(p, o))
+				return
+			}
+			classify(st, p, o, obs)
+		}
 	})
 	if want := kit.EnumCount(nk, maxStmts); total != want {
 		t.Fatalf("enumeration visited %d plans, closed form says %d", total, want)
 	}
-	st.ClassN("enumerated-space-size", total)
+	if shard == 0 {
+		st.ClassN("enumerated-space-size", total)
+	}
 	st.Note("exhaustive sub-space: all %d fault plans for bodies of <= %d statements over kinds %v "+
 		"(API x begin/connect fault x commit fault x rollback fault x per-statement ok|failed-ignored|failed-returned x "+
 		"ending nil|error|panic(error|string|nil)); this shard %d/%d ran %d", total, maxStmts, kinds, shard, shards, ran)
